@@ -14,6 +14,7 @@ from typing import (
 from .types import (
     Intersection,
     Order,
+    Union,
     clsstring,
     get_args,
     normalize_type,
@@ -249,7 +250,9 @@ class Equals(ParametrizedDependentType):
     keyable_type = True
 
     def default_bound(self, *parameters):
-        return type(parameters[0])
+        # The values may be of several types: all of them must be in the bound
+        types = tuple(dict.fromkeys(type(p) for p in parameters))
+        return types[0] if len(types) == 1 else Union[types]
 
     def check(self, value):
         return value in self.parameters
